@@ -139,8 +139,13 @@ def run(module, prop, tier, plan, describe, assumptions=()):
             print(f"HARNESS-FLAKY property={prop} run={r['i']} klass={k} replay={path} (did not reproduce in a fresh worker: {final})", flush=True)
             exit_code = max(exit_code, 2)
     if errors:
-        for e in errors[:5]:
-            print(f"[{prop}] HARNESS-ERROR {e.get('harness_error')} {e.get('traceback', '')[-1500:]}", flush=True)
+        shown = set()
+        for e in errors:
+            msg = str(e.get("harness_error"))[:300]
+            if msg in shown or len(shown) >= 3:
+                continue
+            shown.add(msg)
+            print(f"[{prop}] HARNESS-ERROR {msg} {e.get('traceback', '')[-1200:]}", flush=True)
         if exit_code == 0:
             exit_code = 2
     wall = time.time() - t0
